@@ -284,8 +284,19 @@ def run(ctx) -> None:
     epa = repo.method(IAM, "BaseField", "_exit_plane_after")
     tests = {}
     for name, fn in (("exit_thicknesses", et), ("_exit_plane_after", epa), ("multislice_and_detect", mad)):
-        ts = [norm_text(i.test).replace("self.", "").replace("potential.", "") for i in walk_no_nested(fn.node)
-              if isinstance(i, ast.If) and "exit_planes[0]" in norm_text(i.test)]
+        # locals that alias `<obj>.exit_planes` are spelled canonically
+        alias = {st.targets[0].id for st in walk_no_nested(fn.node) if isinstance(st, ast.Assign)
+                 and len(st.targets) == 1 and isinstance(st.targets[0], ast.Name)
+                 and isinstance(st.value, ast.Attribute) and st.value.attr == "exit_planes"}
+        ts = []
+        for i in walk_no_nested(fn.node):
+            if not isinstance(i, ast.If):
+                continue
+            t = norm_text(i.test).replace("self.", "").replace("potential.", "")
+            for a in alias:
+                t = t.replace(f"{a}[0]", "exit_planes[0]")
+            if "exit_planes[0]" in t:
+                ts.append(t)
         tests[name] = ts
     allsame = all(ts == ["exit_planes[0] == -1"] for ts in tests.values())
     ctx.check(allsame, "R-THICKNESS", "entrance-plane convention (3 sites)", et.where,
@@ -295,9 +306,12 @@ def run(ctx) -> None:
     for f in repo.all_functions():
         if f.name != "generate_slices" or f.module.name != IAM:
             continue
+        epa_names = {st.targets[0].id for st in walk_no_nested(f.node) if isinstance(st, ast.Assign)
+                     and len(st.targets) == 1 and isinstance(st.targets[0], ast.Name)
+                     and isinstance(st.value, ast.Attribute) and st.value.attr == "_exit_plane_after"}
         for st in walk_no_nested(f.node):
-            if isinstance(st, ast.Assign) and "exit_plane_after[" in norm_text(st.value):
-                sub = [s for s in ast.walk(st.value) if isinstance(s, ast.Subscript) and dotted(s.value) == "exit_plane_after"]
+            if isinstance(st, ast.Assign) and any(f"{nm}[" in norm_text(st.value) for nm in epa_names):
+                sub = [s for s in ast.walk(st.value) if isinstance(s, ast.Subscript) and dotted(s.value) in epa_names]
                 thick = [s for s in ast.walk(f.node) if isinstance(s, ast.Subscript) and dotted(s.value) in (
                     "self.slice_thickness", "self._slice_thickness") and isinstance(s.slice, ast.Slice)]
                 if not sub or not isinstance(sub[0].slice, ast.Slice):
